@@ -187,6 +187,8 @@ def attribute(clause, ctx):
     infl = ctx.get("inflight", "none")
     if clause.startswith("Metric_"):
         return {"C20"}
+    if clause == "FormatMismatch":
+        return {"C09"}
     if clause in ("StableMismatch", "GetKError", "SetFailed"):
         return {"C08"} | ({"C10"} if fam == "fault" else set()) | ({"C03"} if fam == "crash" and clause == "SetFailed" else set())
     if clause in ("DirExtra", "DirMissing", "SegmentIDReused", "CreateCollision"):
